@@ -1,7 +1,7 @@
 (* C28 — stream decoding versus the way an io.Reader delivers its bytes.
 
    Executable model (no proofs here) of
-     /repo/cbe/decoder_reader.go   Reader: ReadUint8, ReadTypeOrEOF, readIntoBuffer,
+     /repo/cbe/decoder_reader.go   Reader: ReadUint8, ReadTypeOrEOF, readIntoBuffer, Read,
                                    readSmallULEB128, ReadUint, ReadBytes, ReadIdentifier,
                                    ReadDecimalFloat, ReadDate/Time/Timestamp, markBytesRead
      /repo/cbe/decoder.go          Decode, runMainDecodeLoop, decodePlane7f, decodeArrayChunks ...
@@ -222,10 +222,22 @@ Section Decoder.
   Definition read_type_or_eof : M (option byte) :=
     r <- rd1 ;; if snd r then ret None else mark 1 ;;; b <- get_b0 ;; ret (Some b).
 
-  (* Reader.ReadBytes / readIntoBuffer.  Only the total is accounted here: the
-     limit test after each partial read fails exactly when the total does. *)
-  Definition read_bytes (n : N) : M bytes :=
-    bs <- fill true n ;; mark n ;;; ret bs.
+  (* A fill loop with its accounting.  readIntoBuffer accounts every partial
+     read; compact_time.fillSlice reads through Reader.Read, which accounts too.
+     Only the total is accounted here: the limit test after each partial read
+     fails exactly when the total does, and a loop that ends in an error fails
+     either way. *)
+  Definition fill_mark (at0 : bool) (n : N) : M bytes :=
+    bs <- fill at0 n ;; mark n ;;; ret bs.
+
+  (* Reader.ReadBytes / readIntoBuffer *)
+  Definition read_bytes (n : N) : M bytes := fill_mark true n.
+
+  (* One Read(buffer[:1]) issued by an external decoder (go-uleb128,
+     go-compact-time) through Reader.Read: the bytes actually delivered are
+     accounted before the caller looks at the error. *)
+  Definition rd1x : M (bool * bool) :=
+    r <- rd1 ;; mark (if fst r then 1 else 0) ;;; ret r.
 
   (* uleb128.DecodeWithByteBuffer(reader, buffer) with buffer[:1] = Reader.buffer[:1].
      Result: value, number of bytes counted, and whether asBigInt is non-nil
@@ -237,7 +249,7 @@ Section Decoder.
     match fuel with
     | O => stuck
     | S f =>
-        r <- rd1 ;;
+        r <- rd1x ;;
         if negb (fst r) then
           (* bytesRead == 0: return with the named results still zero and
              err = whatever Read returned *)
@@ -251,7 +263,7 @@ Section Decoder.
     end.
 
   Definition uleb : M ulebv :=
-    r <- rd1 ;;
+    r <- rd1x ;;
     if snd r then fail
     else b <- get_b0 ;;
          if b <? 128 then ret (mkU b 1)
@@ -331,26 +343,26 @@ Section Decoder.
     if m =? 0 then a else if m =? 1 then b else if m =? 2 then c else d.
 
   Definition read_timezone : M tzval :=
-    r <- rd1 ;;
+    r <- rd1x ;;
     if snd r then fail
     else
       h <- get_b0 ;;
       if N.testbit h 0 then
-        rest <- fill false 3 ;;
+        rest <- fill_mark false 3 ;;
         let v := le_decode (h :: rest) in
         ret (TzLatLong (sext 15 (bits v 1 15)) (sext 16 (bits v 16 16)))
       else
         let len := N.shiftr h 1 in
         if len =? 0 then
-          bs <- fill true 2 ;;
+          bs <- fill_mark true 2 ;;
           let raw := le_decode bs in
           let minutes := if N.testbit raw 11 then sext 16 (N.lor raw 0xf000) else Z.of_N (N.land raw 0xfff) in
           ret (if (minutes =? 0)%Z then TzUTC else TzOffset minutes)
         else
-          bs <- fill true len ;; ret (TzNamed bs).
+          bs <- fill_mark true len ;; ret (TzNamed bs).
 
   Definition read_date : M unit :=
-    bs <- fill true 2 ;;
+    bs <- fill_mark true 2 ;;
     let acc := le_decode bs in
     let day := bits acc 0 5 in
     let month := bits acc 5 4 in
@@ -364,13 +376,13 @@ Section Decoder.
     end.
 
   Definition read_time : M unit :=
-    r <- rd1 ;;
+    r <- rd1x ;;
     if snd r then fail
     else
       h <- get_b0 ;;
       let mag := bits h 1 2 in
       let base := sel4 mag 3 4 5 7 in
-      rest <- fill false (base - 1) ;;
+      rest <- fill_mark false (base - 1) ;;
       let acc := le_decode (h :: rest) in
       let sub := 10 * mag in
       let ns := bits acc 3 sub * sel4 mag 1 1000000 1000 1 in
@@ -384,13 +396,13 @@ Section Decoder.
       else tz <- read_timezone ;; emit (RTime (mkTime 1 0 0 0 hr mi sec ns tz)).
 
   Definition read_timestamp : M unit :=
-    r <- rd1 ;;
+    r <- rd1x ;;
     if snd r then fail
     else
       h <- get_b0 ;;
       let mag := bits h 1 2 in
       let base := sel4 mag 4 5 7 8 in
-      rest <- fill false (base - 1) ;;
+      rest <- fill_mark false (base - 1) ;;
       let acc := le_decode (h :: rest) in
       let sub := 10 * mag in
       let ns := bits acc 3 sub * sel4 mag 1 1000000 1000 1 in
